@@ -1199,12 +1199,14 @@ STD (ht_basic, "ht_new 0", "ht_free 0")
 STD (ht_insert3, "ht_new 0", "ht_insert 0 1 10", "ht_insert 0 102 20", "ht_insert 0 1 30", "ht_remove 0 102", "ht_remove 0 55", "ht_free 0")
 STD (ht_keys_values, "ht_new 0", "ht_insert 0 1 10", "ht_insert 0 2 20", "ht_insert 0 3 30", "ht_keys 0 1", "ht_values 0 2", "list_free 1", "list_free 2", "ht_free 0")
 STD (ht_lbv, "ht_new 0", "ht_insert 0 1 10", "ht_insert 0 2 10", "ht_insert 0 3 20", "ht_lbv 0 1 10", "ht_lbv 0 2 99", "list_free 1", "list_free 2", "ht_free 0")
+STD (ht_bucket0, "ht_new 0", "ht_insert 0 64 10", "ht_insert 0 165 20", "ht_insert 0 1 30", "ht_keys 0 1", "list_free 1", "ht_remove 0 1", "ht_free 0")
 STD (err_basic, "err_new 0", "err_set_error 0", "err_set_message 0", "err_clear 0", "err_set_message 0", "err_free 0")
 STD (err_literal_copy, "err_new_literal 0", "err_copy 0 1", "err_free 0", "err_free 1")
 STD (err_set_p, "err_set_p 0", "err_set_p 0", "err_set_p x", "err_free 0")
 STD (ini_new, "ini_new 0 1", "ini_free 0")
 STD (ini_parse_small, "ini_new 0 1", "ini_parse 0 1", "ini_parse 0 1", "ini_free 0", "err_free 1")
 STD (ini_parse_multi, "ini_new 0 2", "ini_parse 0 x", "ini_free 0")
+STD (ini_prelude, "ini_new 0 3", "ini_parse 0 1", "ini_sections 0 2", "strlist_free 2", "ini_keys 0 0 3", "strlist_free 3", "ini_free 0", "err_free 1")
 STD (ini_missing, "ini_new 0 0", "ini_parse 0 1", "err_free 1", "ini_free 0")
 STD (ini_sections_keys, "ini_new 0 2", "ini_parse 0 x", "ini_sections 0 1", "ini_keys 0 2 2", "ini_keys 0 7 3", "strlist_free 1", "strlist_free 2", "strlist_free 3", "ini_free 0")
 STD (ini_getters, "ini_new 0 2", "ini_parse 0 x", "ini_string 0 0 0 1", "ini_string 0 0 9 2", "ini_int 0 2 3", "ini_double 0 2 3", "ini_bool 0 2 2", "ini_int 0 2 9", "str_free 1", "str_free 2", "ini_free 0")
@@ -1366,9 +1368,9 @@ STD (long_ipc_threads,
 #define E(n) { #n, scen_##n }
 static const struct { const char *name; void (*fn) (void); } SCENARIOS[] = {
 	E (init_only), E (str_dup), E (str_chomp), E (str_tod), E (list_append3), E (list_prepend3), E (list_mixed),
-	E (tree_bst), E (tree_rb), E (tree_avl), E (tree_replace), E (ht_basic), E (ht_insert3), E (ht_keys_values), E (ht_lbv),
+	E (tree_bst), E (tree_rb), E (tree_avl), E (tree_replace), E (ht_basic), E (ht_insert3), E (ht_keys_values), E (ht_lbv), E (ht_bucket0),
 	E (err_basic), E (err_literal_copy), E (err_set_p),
-	E (ini_new), E (ini_parse_small), E (ini_parse_multi), E (ini_missing), E (ini_sections_keys), E (ini_getters), E (ini_list), E (ini_unparsed),
+	E (ini_new), E (ini_parse_small), E (ini_parse_multi), E (ini_prelude), E (ini_missing), E (ini_sections_keys), E (ini_getters), E (ini_list), E (ini_unparsed),
 	E (hash_md5), E (hash_sha1), E (hash_sha2_224), E (hash_sha2_256), E (hash_sha2_384), E (hash_sha2_512),
 	E (hash_sha3_224), E (hash_sha3_256), E (hash_sha3_384), E (hash_sha3_512), E (hash_gost),
 	E (ipc_key_posix), E (ipc_key_sysv), E (ipc_tmpdir),
